@@ -21,7 +21,8 @@ from mc.models import mapping as mm
 PROPERTY = 'C18'
 LEVEL = 'exploration'
 RULE = ("every tree shape with <= 3 levels / 2..N leaves x label scheme x "
-        "cells per cluster {2,3}; chain run with the project's own stages; "
+        "cells per cluster {2,3} (also with one leaf that has no reference "
+        "cell); chain run with the project's own stages; "
         "centroid queries {all leaves, leaves under each top-level node, "
         "each single leaf (quick: first and last)} x bootstrap (factor, "
         "iterations) {(1,1),(1,3),(0.5,5),(0.25,7),(0.97,7),(1,256),(0.97,256)} x "
@@ -54,6 +55,11 @@ def cases(tier, seed):
                           ((2,) if si % 2 else (3,))):
             yield {'L': L, 'shape': shape, 'scheme': 'BDE'[si % 3],
                    'cells_per': cells_per, 'seed': seed, 'tier': tier}
+            if n >= 3 and (si % 3 == 0 or tier == 'thorough'):
+                # one leaf of the taxonomy has no reference cell at all
+                yield {'L': L, 'shape': shape, 'scheme': 'BDE'[si % 3],
+                       'cells_per': cells_per, 'seed': seed, 'tier': tier,
+                       'empty_leaf': True}
 
 
 def evaluate(case, scratch):
@@ -88,6 +94,19 @@ def evaluate(case, scratch):
             d / 'ref', L=L, shape=shape, scheme=case['scheme'],
             cells_per=case['cells_per'], n_genes=n_genes, seed=case['seed'],
             n_files=2, profile_shift=phase)
+        empty = None
+        if case.get('empty_leaf'):
+            leaf_lv = ref.hierarchy[-1]
+            # not the only leaf of its top-level node: a whole class
+            # without reference cells has no markers against the others
+            top_lv = ref.hierarchy[0]
+            cand = [leaf for leaf in ref.model['leaves'] if len(
+                domains.model_leaves_under(
+                    ref.model, top_lv,
+                    domains.model_ancestors(ref.model, leaf)[top_lv])) >= 2]
+            if cand:
+                empty = cand[(1 + phase) % len(cand)]
+                ref.tree_data[leaf_lv][empty] = []
         # ---- the project's own stages, each feeding the next
         try:
             stats = refdata.run_precompute(ref, d / 'stats.h5', tmp,
@@ -142,14 +161,19 @@ def evaluate(case, scratch):
         # ---- centroid queries
         centroid = {leaf: sums[c2r[leaf]] / max(1, n_cells[c2r[leaf]])
                     for leaf in leaves}
+        if empty is not None and n_cells[c2r[empty]] != 0:
+            viol('names-inconsistent',
+                 f'{empty} has no cell but n_cells={n_cells[c2r[empty]]}')
         h = model['hierarchy']
-        subsets = [('all', list(leaves))]
+        populated = [leaf for leaf in leaves if n_cells[c2r[leaf]] > 0]
+        subsets = [('all', list(populated))]
         for top in model['nodes'][h[0]]:
-            under = domains.model_leaves_under(model, h[0], top)
-            if 0 < len(under) < len(leaves):
+            under = [x for x in domains.model_leaves_under(model, h[0], top)
+                     if x in populated]
+            if 0 < len(under) < len(populated):
                 subsets.append((f'under {top}', under))
-        singles = leaves if case['tier'] == 'thorough' else \
-            [leaves[0], leaves[-1]]
+        singles = populated if case['tier'] == 'thorough' else \
+            [populated[0], populated[-1]]
         for leaf in singles:
             subsets.append((f'only {leaf}', [leaf]))
         boots = [(1.0, 1), (1.0, 3), (0.5, 5), (0.25, 7), (0.97, 7),
@@ -205,6 +229,7 @@ def evaluate(case, scratch):
                     common.close_leaked_h5()
                 n_runs += 1
                 desc = (('rebuilt in place: ' if phase else '') +
+                        (f'leaf {empty} without cells: ' if empty else '') +
                         f'query={qname} factor={factor} iterations={it} '
                         f'rotation={rot} chunk={chunk} workers={npr} '
                         f'seed={rng_seed}')
